@@ -75,7 +75,7 @@ def main():
         for p in [pid] + others:
             runs = []
             for seed in (0, 1):
-                env = dict(os.environ, PAROXY_REPO=str(patched), VERIF_SEED=str(seed))
+                env = dict(os.environ, PAROXY_REPO=str(patched), VERIF_SEED=str(seed), VERIF_EVIDENCE_DIR=str(tmp / "evidence"))
                 c, o = sh(["./check", p, "--tier", "quick"], cwd=VERIF, env=env)
                 line = [l for l in o.splitlines() if l.startswith(("VIOLATION", "OK ", "KNOWN-FINDING", "MACHINERY"))]
                 replay = None
